@@ -18,6 +18,7 @@ KeySeq == LET RECURSIVE Sort(_)
 Obs == [res |-> out.res,
         enq |-> S.enq,
         wr  |-> S.wr,
+        pend |-> IF S.inio THEN 1 ELSE 0,
         mem |-> [i \in 1 .. Len(KeySeq) |-> IF InMem(S, KeySeq[i]) THEN 1 ELSE 0],
         dsk |-> [i \in 1 .. Len(KeySeq) |-> IF S.index[Hash[KeySeq[i]]].kind = "addr" THEN 1 ELSE 0]]
 
@@ -37,15 +38,17 @@ Op ==
     \/ "get" \in OpSet /\ \E k \in Keys : Get(k)
     \/ "sload" \in OpSet /\ \E k \in Keys : SLoad(k)
     \/ "fetch" \in OpSet /\ S.nv < MaxIns /\ \E k \in Keys : Fetch(k)
+    \/ "clear" \in OpSet /\ Clear
     \/ "evict_all" \in OpSet /\ EvictAll
     \/ "evict_all_nt" \in OpSet /\ EvictAllNoTurn
     \/ "hold" \in OpSet /\ (Hold \/ Unhold)
     \/ "gate" \in OpSet /\ (GateOn \/ GateOff \/ GateStep)
     \/ "close" \in OpSet /\ Close
+    \/ "close" \in OpSet /\ CloseGated
     \/ "close" \in OpSet /\ ReopenOK /\ Reopen
 
 MCNext ==
-    /\ steps < MaxSteps
+    /\ steps < MaxSteps /\ ~S.stuck
     /\ Op
     /\ steps' = steps + 1
     /\ IF Emit
